@@ -1242,11 +1242,16 @@ class Interp:
             if isinstance(v, (Lst, Tup)):
                 return Tup(v.items)
         if name == "set":
-            if not args:
-                return Lst([])
-            v = args[0]
-            if isinstance(v, (Lst, Tup)):
-                return Lst(list(v.items))
+            out = Lst([])
+            out.is_set = True
+            if args:
+                v = args[0]
+                if not isinstance(v, (Lst, Tup)):
+                    raise Unsupported(f"set({v!r}) at {self.site}")
+                for x in v.items:
+                    if not self._contains(out, x):
+                        out.items.append(x)
+            return out
         if name == "int":
             v = args[0]
             if isinstance(v, (int, float)):
@@ -2244,7 +2249,8 @@ class _StrMethod(_ListMethod):
         self.cls = None
 
 
-_LIST_METHODS = {n: _ListMethod(n) for n in ("append", "pop", "insert", "sort", "extend", "index", "remove", "copy")}
+_LIST_METHODS = {n: _ListMethod(n) for n in ("append", "pop", "insert", "sort", "extend", "index", "remove", "copy", "add",
+                                              "union")}
 _DICT_METHODS = {n: _ListMethod("dict_" + n) for n in ("get", "keys", "values", "items")}
 
 _orig_call_function = Interp.call_function
@@ -2275,6 +2281,17 @@ def _call_builtin_method(self: Interp, info, args, kwargs):
         if n == "append":
             obj.items.append(rest[0])
             return None
+        if n == "add" and getattr(obj, "is_set", False):
+            if not self._contains(obj, rest[0]):
+                obj.items.append(rest[0])
+            return None
+        if n == "union" and getattr(obj, "is_set", False) and isinstance(rest[0], (Lst, Tup)):
+            out = Lst(list(obj.items))
+            out.is_set = True
+            for x in rest[0].items:
+                if not self._contains(out, x):
+                    out.items.append(x)
+            return out
         if n == "pop":
             try:
                 return obj.items.pop(*[x for x in rest])
